@@ -1806,7 +1806,8 @@ func (s *TreeShapeListener) EnterSimple_endpoint(ctx *parser.Simple_endpointCont
 		}
 		return
 	}
-	s.endpointName = ctx.Endpoint_name().GetText()
+	// calls name their target endpoint unescaped (ExitCall_stmt), so the endpoint is stored unescaped too
+	s.endpointName = MustUnescape(ctx.Endpoint_name().GetText())
 	s.recordEndpoint(s.endpointName, s.createLocation(ctx.GetStart()))
 	ep := s.currentApp().Endpoints[s.endpointName]
 
